@@ -145,7 +145,11 @@ func c09RunScenario(c *c09Case) *c09Obs {
 		comm.Client.ObjQueueMax = int32(c.ObjMax)
 	}
 	h := &c09Holder{}
-	comm.StringToProxy(fmt.Sprintf("VerifApp.C09Server.C09Obj@tcp -h 127.0.0.1 -p %d -t 60000", peer.port), h)
+	proto := "tcp"
+	if strings.HasPrefix(c.Conn, "udp") {
+		proto = "udp"
+	}
+	comm.StringToProxy(fmt.Sprintf("VerifApp.C09Server.C09Obj@%s -h 127.0.0.1 -p %d -t 60000", proto, peer.port), h)
 	sp, ok := h.s.(*tars.ServantProxy)
 	if !ok {
 		obs.Fatal = "no servant proxy"
@@ -456,6 +460,9 @@ func c09Monitors(c *c09Case) (fails []Failure, timing bool) {
 		}
 	}
 	mayDial := func(call int) bool {
+		if c.Conn == "udp" {
+			return false // datagram sockets connect at once
+		}
 		if c.Conn != "accept" || acceptSeq == 0 || acceptSeq > startSeq[call] {
 			return true
 		}
@@ -592,7 +599,7 @@ func c09Coq(c *c09Case) string {
 	if o == nil || o.Fatal != "" {
 		return ""
 	}
-	conn := map[string]string{"accept": "CAccept", "refuse": "CRefuse", "stall": "CStall", "accept-close": "CAcceptClose", "noread": "CNoRead", "noread-early": fmt.Sprintf("(CNoReadEarly %d)", c09U(c.EarlyMs))}[c.Conn]
+	conn := map[string]string{"accept": "CAccept", "udp": "CAccept", "udp-unreachable": "CAccept", "refuse": "CRefuse", "stall": "CStall", "accept-close": "CAcceptClose", "noread": "CNoRead", "noread-early": fmt.Sprintf("(CNoReadEarly %d)", c09U(c.EarlyMs))}[c.Conn]
 	var acts []string
 	for _, a := range c.Acts {
 		junk, reply, dup, down := "false", "None", "false", "false"
@@ -844,6 +851,24 @@ func c09Gen(tier string, rng *rand.Rand) []c09Case {
 		c.Callers = pick(8, 32)
 		c.Calls = 3
 		c.Warm = false
+		c.Predict = false
+		cs = append(cs, c)
+		// datagram transport: no connection to establish or lose
+		c = base("udp-mixed-sequential", "udp", nil)
+		T = c.TimeoutMs
+		c.Acts = []c09Act{{"reply", 0}, {"none", 0}, {"reply", r10(T * 3 / 2)}, {"dup", 20}, {"forged", 20}, {"reply", r10(T / 2)}, {"reply", 0}}
+		c.Calls = len(c.Acts)
+		c.GapMs = 10
+		cs = append(cs, c)
+		c = base("udp-silent-concurrent", "udp", []c09Act{{Do: "none"}})
+		c.Callers = pick(2, 8, 32)
+		cs = append(cs, c)
+		c = base("udp-reply-concurrent", "udp", rep(pick(0, 30)))
+		c.Callers = pick(2, 8, 32)
+		cs = append(cs, c)
+		c = base("udp-unreachable", "udp-unreachable", []c09Act{{Do: "none"}})
+		c.Calls = 3
+		c.GapMs = 20
 		c.Predict = false
 		cs = append(cs, c)
 		// one-way calls return as soon as the request is queued (monitors only)
